@@ -48,6 +48,22 @@ def check(run):
             else:
                 ops.append(dict(op=o, arg=run.rng.choice(dom)))
         plans.append(mkplan(mode, ops, ordered=(i % 2 == 0)))
+    # look-up, change, look-up again (anything a Sorted might remember between calls must be dropped by the change): every
+    # triple over small contents (quick: a seeded sample)
+    import itertools as _it
+    trip = []
+    for mode in ("asc", "desc"):
+        dom = [1, 2, 3]
+        inits = [list(c) for n in range(0, 4) for c in _it.combinations_with_replacement(dom, n)]
+        for init in inits:
+            looks = [dict(op=o, arg=v) for o in ("Index", "Contains") for v in dom]
+            muts = [dict(op="Add", arg=v) for v in dom] + [dict(op="Remove", arg=v) for v in dom] + [dict(op="RemoveAt", arg=i) for i in range(0, len(init))]
+            after = looks + [dict(op="Remove", arg=v) for v in dom] + [dict(op="Add", arg=v) for v in dom]
+            for a in looks:
+                for m in muts:
+                    for b in after:
+                        trip.append(mkplan(mode, [dict(op="New", arg=0, vals=init), a, m, b, dict(op="Index", arg=b["arg"])]))
+    plans += trip if not run.quick() else run.rng.sample(trip, 1500)
     # grow large then shrink: insertion into spare capacity vs reallocation, removal down to empty
     for mode in ("asc", "desc", "key"):
         dom = list(range(1, 41)) if mode != "key" else [k * 10 + t for k in range(1, 14) for t in range(0, 3)]
@@ -73,7 +89,8 @@ def check(run):
                    distinct_nontrivial=distinct_count(segs, lambda s: len(s) > 3),
                    rule="tour paths covering every edge of the TLC graph of Sorted.tla for three orders (asc, desc, weak key order): "
                         "every initial slice x every Add/Remove/RemoveAt/Get/Index/Contains incl. absent values and out-of-range "
-                        "positions; plus seeded histories over 8 values; non-trivial = New + >= 1 call")
+                        "positions; plus seeded histories over 8 values; plus look-up / change / look-up triples over every content of <= 3 of 3 "
+                        "values (quick: 1500 sampled); non-trivial = New + >= 1 call")
     run.cov["samples"] = [segs[1][:6], segs[-1][:5]]
     run.assumptions += ["element type int; orders: <, >, and key-only weak order on v/10"]
     return finish(run, reexec=lambda rej: execute(run, [rej["plan"]])[0])
